@@ -55,48 +55,38 @@ structure GAlloc where
   ratio : Int
 deriving Repr, DecidableEq
 
-/-- what preBindObject leaves on the object: the device-allocated annotation and the keys the adapters own. -/
-structure Obj where
+/-- what preBindObject leaves on the object: the device-allocated annotation and whatever the adapters wrote under
+    their own keys (`π` = the adapters' payload; its shape is irrelevant to the allocation state). -/
+structure Obj (π : Type) where
   allocated : Option (List GAlloc)
-  vendor    : List (Nat × List Int)   -- (key id, rendered value) written by the adapters
-deriving Repr, DecidableEq
-
-/-- vendors known to `gpuDevicePluginAdapterMap` (0 = none / unknown vendor) -/
-inductive Vendor where
-  | none | huawei | cambricon | metax
-deriving Repr, DecidableEq
+  vendor    : Option π
 
 def cambriconUnit : Int := 256 * 1024 * 1024
-def metaxUnit : Int := 1024 * 1024
-
-/-- the vendor's `Adapt`: READS the allocation, returns the annotation values it writes (`none` = error).
-    key 1 = CAMBRICON_DSMLU_PROFILE `<minor>_<vcore>_<vmemory>`, 2 = metax gpu-devices-allocated (compute, vRam)*,
-    3 = huawei npu-core minors. -/
-def adapt : Vendor → List GAlloc → Option (List (Nat × List Int))
-  | .none, _ => some []
-  | .huawei, al => some [(3, al.map (fun a => (a.minor : Int)))]
-  | .cambricon, al =>
-    match al with
-    | [a] => if a.mem < cambriconUnit then none else some [(1, [a.minor, a.core, a.mem / cambriconUnit])]
-    | _ => none
-  | .metax, al =>
-    if al.all (fun a => decide (metaxUnit ≤ a.mem)) then some [(2, al.flatMap (fun a => [a.core, a.mem / metaxUnit]))]
-    else none
 
 /-- deviceshare `preBindObject`: `SetDeviceAllocations(object, state.allocationResult)` FIRST, then (gate
-    DevicePluginAdaption) `adaptForDevicePlugin`, which hands the same slice to the adapters; they write their own
-    keys only.  `ok = false`: an adapter returned an error (PreBind fails, the cycle is unreserved) — the
-    annotation is already on the object. -/
-def preBind (gate : Bool) (v : Vendor) (_carried : Obj) (al : List GAlloc) : Obj × Bool :=
-  if !gate then ({ allocated := some al, vendor := [] }, true) else
-  match adapt v al with
-  | some keys => ({ allocated := some al, vendor := keys }, true)
-  | none => ({ allocated := some al, vendor := [] }, false)
+    DevicePluginAdaption) `adaptForDevicePlugin`, which hands the same slices to the general and the vendor's
+    adapters.  An adapter is ANY function of the allocation (it READS it: harness oracle
+    `C19:dev-adapter-rewrote-allocation`, tie `tie_dev_adapters_read_only`) that writes its own annotation keys / a
+    node lock, or refuses (`none`: un-aligned or missing amounts, several shares, node still locked …).
+    Result: the object and whether PreBind succeeded (`false`: the cycle is unreserved — the annotation is
+    already on the object, which re-enters the scheduler annotated). -/
+def preBind {π : Type} (gate : Bool) (adapt : List GAlloc → Option π) (_carried : Obj π) (al : List GAlloc) :
+    Obj π × Bool :=
+  if !gate then ({ allocated := some al, vendor := none }, true) else
+  match adapt al with
+  | some keys => ({ allocated := some al, vendor := some keys }, true)
+  | none => ({ allocated := some al, vendor := none }, false)
 
-/-- NOT the code: the cambricon adapter aligns gpu-memory down to its unit IN the allocation and the annotation is
-    written after the adaption.  Only used for the counterexample. -/
-def preBindAlignedAfterAdapt (al : List GAlloc) : Obj :=
-  { allocated := some (al.map (fun a => { a with mem := a.mem / cambriconUnit * cambriconUnit })), vendor := [] }
+/-- an instance: `cambriconGPUDevicePluginAdapter.Adapt` (one share only, gpu-memory ≥ one 256Mi sMLU unit;
+    profile `<minor>_<vcore>_<vmemory>`; gpu-core presence is not modelled). -/
+def cambriconAdapt : List GAlloc → Option (Nat × Int × Int)
+  | [a] => if a.mem < cambriconUnit then none else some (a.minor, a.core, a.mem / cambriconUnit)
+  | _ => none
+
+/-- NOT the code: the adapter aligns gpu-memory down to its unit IN the allocation and the annotation is written
+    after the adaption.  Only used for the counterexample. -/
+def preBindAlignedAfterAdapt (al : List GAlloc) : Option (List GAlloc) :=
+  some (al.map (fun a => { a with mem := a.mem / cambriconUnit * cambriconUnit }))
 
 end DevPB
 
